@@ -573,3 +573,17 @@ HANDLERS['numpy.einsum'] = h_einsum
 HANDLERS['zip'] = h_zip
 HANDLERS['enumerate'] = h_enumerate
 HANDLERS['sum'] = h_sum_builtin
+
+
+def h_stack(ip, st, args, kw, node):
+    """np.stack / np.vstack of a known sequence of rows along the first axis is the array of those rows"""
+    x = args[0] if args else NONE
+    ax = kw.get('axis', args[1] if len(args) > 1 else None)
+    first = ax is None or ax == NONE or (isinstance(ax, Poly) and ax.const_value() == 0)
+    if isinstance(x, Tup) and first and 'out' not in kw:
+        return Tup(x.items, 'vec')
+    extra = {'axis': ax} if ax is not None and ax != NONE else {}
+    return app('stack', P(x), **extra)
+
+
+HANDLERS['numpy.stack'] = h_stack
